@@ -23,6 +23,25 @@ impl PartialEq for Keyed {
     }
 }
 
+/// An enum whose equality relates values of DIFFERENT variants (only the payload counts).
+#[derive(Clone, Copy, Debug)]
+pub enum Cross {
+    A(u8),
+    B(u8),
+}
+impl Cross {
+    fn payload(&self) -> u8 {
+        match *self {
+            Cross::A(v) | Cross::B(v) => v,
+        }
+    }
+}
+impl PartialEq for Cross {
+    fn eq(&self, o: &Cross) -> bool {
+        self.payload() == o.payload()
+    }
+}
+
 pub const E_TOKEN_NOT_DENSE: u32 = 200;
 pub const E_LOOKUP_CHANGED: u32 = 201;
 pub const E_FETCH_NOT_FIRST: u32 = 202;
@@ -56,6 +75,22 @@ impl Val for Keyed {
     }
     fn raw(&self) -> u8 {
         self.0
+    }
+}
+
+impl Val for Cross {
+    fn mk(v: u8) -> Cross {
+        if v & 0x80 != 0 {
+            Cross::A(v & 0x7f)
+        } else {
+            Cross::B(v)
+        }
+    }
+    fn raw(&self) -> u8 {
+        match *self {
+            Cross::A(v) => v | 0x80,
+            Cross::B(v) => v,
+        }
     }
 }
 
@@ -140,4 +175,7 @@ pub fn storage_odd(raw: &[u8; RAW]) -> u32 {
 }
 pub fn storage_keyed(raw: &[u8; RAW]) -> u32 {
     scenario::<Keyed>(raw, OPS)
+}
+pub fn storage_cross(raw: &[u8; RAW]) -> u32 {
+    scenario::<Cross>(raw, OPS)
 }
